@@ -77,6 +77,7 @@ where
 #[cfg(feature = "serde")]
 mod serialize {
     use super::*;
+    use crypto_bigint::Integer;
     use serde::{Deserialize, Deserializer, Serialize};
     impl Serialize for SK2048 {
         fn serialize<S>(&self, serializer: S) -> Result<S::Ok, S::Error>
@@ -94,6 +95,12 @@ mod serialize {
             D: Deserializer<'de>,
         {
             let minimal = MinimalSK2048::deserialize(deserializer)?;
+            // Montgomery parameters exist for odd moduli only
+            if !bool::from(minimal.p.is_odd() & minimal.q.is_odd()) {
+                return Err(serde::de::Error::custom(
+                    "invalid Paillier secret key: p and q must be odd",
+                ));
+            }
             Ok(minimal.into())
         }
     }
@@ -114,6 +121,12 @@ mod serialize {
             D: Deserializer<'de>,
         {
             let minimal = MinimalPK2048::deserialize(deserializer)?;
+            // Montgomery parameters exist for odd moduli only
+            if !bool::from(minimal.n.is_odd()) {
+                return Err(serde::de::Error::custom(
+                    "invalid Paillier public key: N must be odd",
+                ));
+            }
             Ok(minimal.into())
         }
     }
